@@ -71,7 +71,7 @@ pub fn admissible(p: &Params, mix: &[usize]) -> bool {
     p.log_final_poly_len == 0 || min > p.log_final_poly_len
 }
 
-pub const N_LAYOUTS: usize = 4;
+pub const N_LAYOUTS: usize = 5;
 
 /// PCS-level layouts of a height mix (rounds = MMCS commitments; every round contains the tallest
 /// matrix, see the known finding F2):
@@ -81,6 +81,9 @@ pub const N_LAYOUTS: usize = 4;
 ///     shortest again at zeta only (alpha powers continue across rounds per height)
 ///  3: one round, opening-point sets alternate between matrices (mixed groups fall back to the
 ///     per-matrix path)
+///  4: one round, every matrix opened at zeta only, plus one more matrix of the tallest height
+///     opened at zeta·g only: a (batch, height) group of single-point matrices whose points
+///     DIFFER (must not take the shared-point fast path)
 pub fn pcs_shape(p: &Params, mix: &[usize], s: usize, layout: usize) -> PcsShape {
     let w = |j: usize| WIDTHS[(s + j) % 3];
     let mats = |two: &dyn Fn(usize) -> bool| -> Vec<MatSpec> {
@@ -96,7 +99,12 @@ pub fn pcs_shape(p: &Params, mix: &[usize], s: usize, layout: usize) -> PcsShape
             }
             vec![mats(&|_| true), second]
         }
-        _ => vec![mats(&|j| j % 2 == 0)],
+        3 => vec![mats(&|j| j % 2 == 0)],
+        _ => {
+            let mut ms = mats(&|_| false);
+            ms.push(MatSpec::next_only(mix[0], w(5)));
+            vec![ms]
+        }
     };
     PcsShape { params: p.clone(), rounds }
 }
@@ -126,7 +134,7 @@ pub fn pcs_extra_shapes() -> Vec<PcsShape> {
         let mats = mix
             .iter()
             .enumerate()
-            .map(|(j, &(h, c))| MatSpec { log_h: h, width: WIDTHS[(k + j) % 3], two_points: k % 4 < 2, constant: c })
+            .map(|(j, &(h, c))| MatSpec { log_h: h, width: WIDTHS[(k + j) % 3], two_points: k % 4 < 2, constant: c, next_only: false })
             .collect();
         v.push(PcsShape { params: p, rounds: vec![mats] });
     }
